@@ -6,13 +6,19 @@ import os
 from vf import core
 from vf.core import CorrResult, Failure
 from . import kalman_common as kc
+from . import kalman_sessions as ks
 
 ID = "C08"
 PROPS = "props/C08.v"
 GENERATED: list = []
-CASE_DEPS = ["lib/MatOps.vo", "model/Kalman.vo", "lib/KalmanCase.vo"]
+CASE_DEPS = ["lib/MatOps.vo", "model/Kalman.vo", "lib/KalmanCase.vo", "model/KalmanSession.vo", "lib/KalmanSessionCase.vo"]
 ALLOWED_AXIOMS: set = set()          # the theorems are closed under the global context
 TRUSTED = [
+    "model/KalmanSession.v is hand-written from has_variants.py (alter_num_variants, iter_variants), simultaneous/main.py "
+    "(solve -> _solve_variant), simultaneous/_get.py (_gets_solution), fords/kalmans.py (the loop over the variants), "
+    "fords/shock_simulators.py and fords/solutions.py (_get_solution_expansion memo lists); it is tied to the code by the session "
+    "correspondence (recorded inputs of fords.kalmans.predict and of _get_solution_expansion, memo-list lengths after every "
+    "operation) - no translator",
     "model/Kalman.v is hand-written from fords/kalmans.py (predict, update, smooth, one_step_back, _OutputStore.store_*), "
     "simultaneous/_kalmans.py (_generate_period_system/_data) and fords/covariances.py (symmetrize); it is tied to the code by "
     "the tolerance correspondence only (no translator)",
@@ -27,7 +33,9 @@ ASSUMPTIONS = [
     "theorems are over an arbitrary real field (no rounding); shock covariance matrices symmetric (they are diagonal in irispie); "
     "smooth_reproduces_data additionally needs the prediction MSE matrix F of every period to be invertible",
     "unit-root models: diffuse_method='fixed_unknown' (the default) with the unit roots identified by the data (the GLS "
-    "system is solved by the inverse in the model, by lstsq in the code); one parameter variant; the impact of anticipated "
+    "system is solved by the inverse in the model, by lstsq in the code); the numerical model is that of ONE pass of the "
+    "loop over the parameter variants - which solution, values, expansion matrices and data column each pass of each call of a "
+    "session is handed is the subject of model/KalmanSession.v (state machine over the variants, black boxes abstract); the impact of anticipated "
     "shocks enters the model as an input that the harness derives from a public simulate() run on a fresh model object",
     "the branch test `t <= last_period_of_observations` of one_step_back is modelled by the equivalent local test "
     "`observations in this period or backward state present`",
@@ -43,7 +51,9 @@ MANIFEST = {
                   "F); deviation mode on data minus steady state = level results minus steady state for every output incl. the "
                   "likelihood; output mapping through Ua/curr_xi_indexes is row selection and linear.  The model is tied to the "
                   "code by a tolerance correspondence through the public API (random models from source text, masks, stds).",
-    "level_note": "Trusted: Coq kernel + vm_compute, harness, Gauss-Jordan vs LAPACK inverse, recorded initial condition checked "
+    "level_note": "Round 4: props C0x_session_* / C0x_call_variant_pointwise / C0x_reachable_solved_is_fresh are about the "
+                  "model OBJECT (list of variants with stored solutions and memo lists) over every operation history; the numerical "
+                  "black boxes are arbitrary functions there.  Trusted: Coq kernel + vm_compute, harness, Gauss-Jordan vs LAPACK inverse, recorded initial condition checked "
                   "against its defining equations.  Covered since round 2: unit-root models (GLS initial condition), anticipated shocks, call sequences on one model object.  Not covered: rank-deficient GLS systems, other diffuse methods, "
                   "differences below 1e-7 relative, float rounding (theorems are exact over a field).  Re-simulation through "
                   "Simultaneous.simulate is checked by the falsifier only (it is not modelled).",
@@ -52,9 +62,13 @@ MANIFEST = {
 
 def correspondence(ctx) -> CorrResult:
     n = int(os.environ.get("VERIF_KF_CASES", ctx.scale(250, 1200)))      # development knob
-    return kc.correspondence(ctx, n_cases=n, n_exact=ctx.scale(3, 12) if n >= 100 else 0,
-                             max_periods=ctx.scale(8, 24), pid=ID,
-                             contributions=False)      # per-period likelihood contributions belong to C03
+    res = kc.correspondence(ctx, n_cases=n, n_exact=ctx.scale(3, 12) if n >= 100 else 0,
+                            max_periods=ctx.scale(8, 24), pid=ID,
+                            contributions=False)      # per-period likelihood contributions belong to C03
+    # the model object as a state machine (model/KalmanSession.v) against real call sequences
+    ks.session_correspondence(ctx, int(os.environ.get("VERIF_KF_SESSIONS", ctx.scale(24, 300))),
+                              max_periods=ctx.scale(8, 16), pid=ID, res=res)
+    return res
 
 
 def falsify(ctx, hints):
@@ -63,7 +77,7 @@ def falsify(ctx, hints):
     seen = set()
 
     def run(case):
-        for f in kc.falsify_c08_case(case):
+        for f in (ks.falsify_session_c08(case) if "ops" in case else kc.falsify_c08_case(case)):
             if f.key not in seen:
                 seen.add(f.key)
                 fails.append(f)
@@ -87,13 +101,28 @@ def falsify(ctx, hints):
             ctx.log("falsifier raised on a case:", f"{type(e).__name__}: {e}"[:200])
         if len(fails) > 10:
             break
+    # sessions: call sequences (alter_num_variants / assign / solve / kalman_filter in both modes / simulate) on one
+    # model object whose variants differ in transition AND measurement parameters
+    ns = int(os.environ.get("VERIF_KF_SESSIONS", ctx.scale(60, 1200)))
+    info["sessions"] = 0
+    srng = ks.session_rng(ctx, "falsifier")      # own stream (derived from the seed): the older cases keep theirs
+    for _ in range(ns):
+        case = ks.gen_session(srng, max_periods=ctx.scale(8, 16))
+        info["sessions"] += 1
+        try:
+            run(case)
+        except Exception as e:  # noqa
+            info["harness_errors"] = info.get("harness_errors", 0) + 1
+            ctx.log("falsifier raised on a session:", f"{type(e).__name__}: {e}"[:200])
+        if len(fails) > 10:
+            break
     return fails, info
 
 
 def replay(ctx, failure: dict):
     case = failure.get("input")
     if isinstance(case, dict) and "model" in case:
-        for f in kc.falsify_c08_case(case):
+        for f in (ks.falsify_session_c08(case) if "ops" in case else kc.falsify_c08_case(case)):
             if f.key == failure["key"]:
                 return f
     return None
